@@ -236,6 +236,9 @@ def cases(draw):
             'newton_budget': newton_budget}
 
 
+_PLAIN = [0]
+
+
 def check(case):
     J = _jax()
     np = J['np']
@@ -271,6 +274,11 @@ def check(case):
         extra = [float(v) for v in onp.asarray(xs)[1:]]
     else:
         SRF = J['SRF']
+        # every un-jitted call traces a fresh closure; drop JAX's compilation caches now and then so that a long campaign
+        # does not accumulate gigabytes of compiled while-loops per worker
+        _PLAIN[0] += 1
+        if _PLAIN[0] % 200 == 0:
+            J['jax'].clear_caches()
         x, info = SRF.find_root(lambda z: fam_eval(np, fam, z, th), float(case['x0']), np.array(b, dtype=float),
                                 SRF.get_settings(max_iters=case['max_iters'], x_tol=case['x_tol'], r_tol=case['r_tol']))
         conv, iters = info.converged, info.iterations
